@@ -470,8 +470,10 @@ func doReplay(path string) int {
 	go func() { v = sim.Exec(rp.Scenario, mon, nil); close(fin) }()
 	select {
 	case <-fin:
-	case <-time.After(time.Duration(sim.StallSeconds) * time.Second):
-		fmt.Printf("replay %s: the world does not finish within %d s\n", path, sim.StallSeconds)
+	// (alone and with a ten times more generous limit than the batch watchdog: only a world that really
+	// does not finish is blamed on the library)
+	case <-time.After(time.Duration(10*sim.StallSeconds) * time.Second):
+		fmt.Printf("replay %s: the world does not finish within %d s\n", path, 10*sim.StallSeconds)
 		if rp.Key == "C04/non-termination" {
 			fmt.Printf("REPRODUCED key=C04/non-termination\n")
 		}
